@@ -96,7 +96,7 @@ def run(check, prog):
 
 
 # ----------------------------------------------------------------------
-def r1_r2(check, prog, scope):
+def r1_r2(check, prog, scope, floor=120):
     nparams = 0
     for cq in scope:
         owner, fd = init_of(prog, cq)
@@ -147,7 +147,7 @@ def r1_r2(check, prog, scope):
                           'on load' % (L, what), loc)
             else:
                 check.ok('R2-local-shadows-attribute', construct, '', loc)
-    check.floor('constructor arguments checked', nparams, 120)
+    check.floor('constructor arguments checked', nparams, floor)
 
 
 # ----------------------------------------------------------------------
